@@ -47,6 +47,11 @@ package dag
 //@   nopanic
 //@   pure wrapper
 //@   requires repo != nil && def.OperationUnmarshaler != nil
+//@   modifies nothing
+//@   opt trusted_frame
+//@   ensures [ref-exists] err == nil ==> (ref in repository.refs)
+//@   defines [head]       err == nil ==> entity.entityHead(result) == repository.refs[ref]
+//@   check [head-is-ref]  err == nil ==> rootHash == repository.refs[ref]
 //@   check [clock-edge] err == nil ==> (forall k int, j int :: { BFSOrder[k].Parents[j] } 0 <= k && k < len(BFSOrder) && 0 <= j && j < len(BFSOrder[k].Parents) ==> (BFSOrder[k].Parents[j] in oppMap) && oppMap[BFSOrder[k].Parents[j]].EditTime < oppMap[BFSOrder[k].Hash].EditTime)
 //@   check [clock-jump] err == nil ==> (forall k int, j int :: { BFSOrder[k].Parents[j] } 0 <= k && k < len(BFSOrder) && 0 <= j && j < len(BFSOrder[k].Parents) && len(BFSOrder[k].Parents) <= 1 ==> oppMap[BFSOrder[k].Hash].EditTime - oppMap[BFSOrder[k].Parents[j]].EditTime <= 1000000)
 //@   loop 3
@@ -62,3 +67,31 @@ package dag
 //@   loop 7
 //@     invariant forall k int :: { oppSlice[k] } 0 <= k && k < len(oppSlice) ==> oppSlice[k] != nil
 //@     invariant oppSlice == nil || fresh(oppSlice)
+
+// Writing a pack stores objects only (no ref is touched); the new commit has the given parents.
+//@ func (*operationPack).Write
+//@   trusted
+//@   modifies opp.id
+//@   ensures [parents] result1 == nil ==> (forall k int :: { parentCommit[k] } 0 <= k && k < len(parentCommit) ==> repository.anc(parentCommit[k], result))
+
+// merge (C02): the five scenarios, decided on the ghost ref store and the ancestry relation.
+//@ func merge
+//@   props C02 C07 C06
+//@   pure wrapper
+//@   requires repo != nil && def.OperationUnmarshaler != nil
+//@   let refs0 = old(repository.refs)
+//@   let l = refs0[localRef]
+//@   let r = refs0[remoteRef]
+//@   check [invalid-untouched] result.Status == entity.MergeStatusInvalid ==> repository.refs == refs0
+//@   check [nothing-untouched] result.Status == entity.MergeStatusNothing ==> repository.refs == refs0 && (l == r || repository.anc(r, l))
+//@   check [new]      result.Status == entity.MergeStatusNew ==> !(localRef in refs0) && repository.refs == update(refs0, localRef, r)
+//@   check [updated]  result.Status == entity.MergeStatusUpdated ==> (localRef in refs0) && l != r && !repository.anc(r, l) && repository.refs == update(refs0, localRef, repository.refs[localRef])
+//@   check [fast-forward] result.Status == entity.MergeStatusUpdated && repository.anc(l, r) ==> repository.refs[localRef] == r
+//@   check [no-loss]  result.Status == entity.MergeStatusUpdated ==> repository.anc(l, repository.refs[localRef]) && repository.anc(r, repository.refs[localRef])
+//@   check [entity-is-merged-result] result.Status == entity.MergeStatusNew || result.Status == entity.MergeStatusUpdated ==> result.Entity != nil && entity.entityHead(result.Entity) == repository.refs[localRef]
+//@   check [error-keeps-ancestors] result.Status == entity.MergeStatusError && (localRef in refs0) ==> (localRef in repository.refs) && repository.anc(l, repository.refs[localRef])
+//@   loop 1
+//@     invariant forall k int :: { localCommits[k] } 0 <= k && k <= rangeindex ==> localCommits[k] != remoteCommit
+//@   loop 2
+//@     invariant forall k int :: { remoteCommits[k] } 0 <= k && k <= rangeindex ==> remoteCommits[k] != localCommit
+//@     invariant !fastForwardPossible
